@@ -158,8 +158,14 @@ def line_of(node, edge="raw"):
     return "\t".join(cols)
 
 
-def text_of(g, order):
-    return "\n".join(line_of(g["nodes"][i], g.get("edge", "raw")) for i in order) + "\n"
+EOLS = {"lf": "\n", "crlf": "\r\n", "cr": "\r"}     # line terminators: Unix, DOS/Windows, classic Mac OS
+
+
+def text_of(g, order, eol="lf", last=True, header=False):
+    """The file text of one line order.  eol: key of EOLS, written after every line (after the last one only when `last`);
+    header: a '##gff-version 3' line in front."""
+    rows = (["##gff-version 3"] if header else []) + [line_of(g["nodes"][i], g.get("edge", "raw")) for i in order]
+    return EOLS[eol].join(rows) + (EOLS[eol] if last else "")
 
 
 def sample_orders(rng, n, k):
@@ -486,3 +492,43 @@ def third_level_split(g):
     nodes = g["nodes"]
     k = sum(1 for n in nodes if n["layer"] < 2)
     return k if 0 < k < len(nodes) else None
+
+
+# -- the documented `pragmas` argument (C02) ---------------------------------------------------------------------------
+# A pragma spec is "absent" (the argument is not given) or {"default": bool, "set": {name: value}}: the dictionary handed
+# over is dict(constants.default_pragmas if default else {}, **set).  The pool holds settings that, by SQLite's own
+# documentation, change durability / caching / enforcement / the order of unordered results, never the rows a query returns.
+PRAGMA_POOL = [
+    {"foreign_keys": "ON"}, {"foreign_keys": 1}, {"synchronous": "OFF"}, {"synchronous": "FULL"}, {"synchronous": 0},
+    {"journal_mode": "MEMORY"}, {"journal_mode": "TRUNCATE"}, {"journal_mode": "DELETE"}, {"journal_mode": "PERSIST"},
+    {"cache_size": 50}, {"cache_size": -200}, {"main.cache_size": 2000}, {"temp_store": "MEMORY"}, {"page_size": 1024},
+    {"main.page_size": 8192}, {"reverse_unordered_selects": "ON"}, {"automatic_index": "OFF"}, {"case_sensitive_like": "ON"},
+    {"secure_delete": "ON"}, {"recursive_triggers": "ON"}, {"foreign_keys": "OFF"},
+]
+FK_ON = ("ON", 1, "1", "TRUE", "YES")
+
+
+def pragma_specs(rng):
+    """The pragma settings one file is imported under: argument absent, the defaults given explicitly, the defaults plus
+    foreign_keys='ON', and 1-2 drawn ones (1-2 pool entries on top of the defaults or alone); in a drawn sequence."""
+    specs = ["absent", {"default": True, "set": {}}, {"default": True, "set": {"foreign_keys": "ON"}}]
+    for _ in range(rng.choice([1, 1, 2])):
+        extra = {}
+        for d in rng.sample(PRAGMA_POOL, rng.choice([1, 1, 2])):
+            extra.update(d)
+        spec = {"default": rng.random() < 0.7, "set": extra}
+        if spec not in specs:
+            specs.append(spec)
+    rng.shuffle(specs)
+    return specs
+
+
+def pragma_label(spec):
+    if spec == "absent":
+        return "absent"
+    items = ", ".join("%s=%s" % kv for kv in sorted(spec["set"].items()))
+    return ("defaults" if spec["default"] else "no defaults") + (" + " + items if items else "")
+
+
+def fk_on(spec):
+    return spec != "absent" and str(spec["set"].get("foreign_keys", "")).upper() in FK_ON
